@@ -707,4 +707,57 @@ theorem askPermission_keepsDirs {fs fs' : FS} {a : Args} {d : Path} {r} (h : ask
     · have : fs' = fs := by simpa using (congrArg Prod.fst h).symm
       rw [this]; exact KeepsDirs.refl fs
 
+/-! ### the whole offer (`_go` → `_parse_offer`) -/
+
+theorem keepsDirs_set_dir (fs : FS) (d : Path) : KeepsDirs fs (fs.set d .dir) := by
+  intro p hp
+  by_cases e : p = d
+  · subst e; simp [FS.isDir, FS.set]
+  · simpa [FS.isDir, FS.set, e] using hp
+
+theorem writeFile_keepsDirs {fs fs' : FS} {d t : Path} {r} (ht : fs.isDir t = false)
+    (h : writeFile fs d t = (fs', r)) : KeepsDirs fs fs' := by
+  unfold writeFile at h
+  split at h
+  · have : fs' = fs := (congrArg Prod.fst h).symm
+    rw [this]; exact KeepsDirs.refl fs
+  · rename_i hd
+    have hd' : fs.isDir d = false := by simpa using hd
+    have : fs' = (fs.remove t).set d .file := (congrArg Prod.fst h).symm
+    rw [this]
+    refine (keepsDirs_remove_file ht).trans (keepsDirs_set _ ?_)
+    by_cases e : d = t
+    · subst e; simp [FS.isDir, FS.remove]
+    · simpa [FS.isDir, FS.remove, e] using hd'
+
+/-- after a successful `_handle_file` the staging path is a regular file -/
+theorem handleFile_ok_tmp {fs fs1 : FS} {a : Args} {n d t : Path} (h : handleFile fs a n = (fs1, .ok (d, t))) :
+    fs1.isDir t = false := by
+  unfold handleFile at h
+  cases hd : decideDest fs a n with
+  | mk f1 r1 =>
+    rw [hd] at h
+    cases r1 with
+    | error e => simp at h
+    | ok dest =>
+      simp only at h
+      cases hf : freeSpaceProbe f1 a dest with
+      | error e => rw [hf] at h; simp at h
+      | ok u =>
+        rw [hf] at h
+        simp only at h
+        cases ha : askPermission f1 a dest with
+        | mk f2 r2 =>
+          rw [ha] at h
+          cases r2 with
+          | error e => simp at h
+          | ok u2 =>
+            simp only at h
+            split at h
+            · simp at h
+            · simp only [Prod.mk.injEq, Except.ok.injEq] at h
+              obtain ⟨h1, _, h3⟩ := h
+              rw [← h1, ← h3]
+              simp [FS.isDir, FS.set]
+
 end WV.C05
